@@ -118,7 +118,11 @@ PROPS = {
     },
     "C07": {
         "modules": ["Resolved.Props.C07", "Resolved.Props.C07Universe", "Resolved.Props.C07Universe2", "Resolved.Props.C06"],
-        "streams": [{"name": "resolve-universe", "quick": 2400, "thorough": 200000}],
+        "streams": [{"name": "resolve-universe", "quick": 2400, "thorough": 200000},
+                    # the socket code beneath the mock transport (shared by recursive and forwarding resolution):
+                    # answers that need the TCP retry, in several segments, on real sockets
+                    {"name": "server-fwd", "quick": 300, "thorough": 6000, "shards": 2}],
+        "bins": ["resolved"],
         "trivial_tags": [r":bad-op", r"/x0$"],
         "assumptions": ["D8: RRsets carry one TTL; answers compared up to TTL and order inside the final RRset",
                         "with several nameservers per zone the referral host order comes from a HashSet: those cases are judged by the specification oracle only"],
